@@ -133,7 +133,7 @@ def c05_r2(ctx):
             check_fabrication(ctx, f, a, v)
 
 
-@rule('C05', 'R5', 'source grammar: a Source returns Terminate only after it has returned FlushAndRestart')
+@rule('C05', 'R6', 'source grammar: a Source returns Terminate only after it has returned FlushAndRestart')
 def c05_r5(ctx):
     std, sources, special = standard_operators(ctx.facts)
     for f, a in sources:
